@@ -199,6 +199,143 @@ func c07Check(state any, e *vsched.Exec) (string, []explore.Finding) {
 	return strings.Join(order, ",") + fmt.Sprintf(" ctxdone=%v", st.r1DoneAtAck), fs
 }
 
+type c07MultiState struct {
+	*serveRun
+	clientEnd string
+}
+
+// c07Multi: R1 (id 0, tag 1) and R3 (id 4, tag 3) outstanding; two flushes
+// of tag 1 (tags 2 and 5); once both are answered, R2 (id 2) reuses tag 1;
+// the client reads until R2 and R3 are answered.
+func c07Multi(name string, mode int) *explore.Scenario {
+	return &explore.Scenario{
+		Name:  name,
+		Cache: true,
+		Body: func() any {
+			st := &c07MultiState{serveRun: newServeRun(false, &scriptHandler{Mode: mode})}
+			st.startServer()
+			vsched.Go("client", func() {
+				if !st.negotiate(65536) {
+					st.clientEnd = "negotiation failed"
+					return
+				}
+				st.send(1, c06Msg(0, 0))
+				st.send(3, c06Msg(4, 1))
+				st.send(2, p9p.MessageTflush{Oldtag: 1})
+				st.send(5, p9p.MessageTflush{Oldtag: 1})
+				count := func(tag p9p.Tag) int {
+					n := 0
+					for _, r := range st.replies {
+						if r.Tag == tag {
+							n++
+						}
+					}
+					return n
+				}
+				for count(2) == 0 || count(5) == 0 {
+					if _, ok := st.recv(); !ok {
+						st.clientEnd = "stream ended before both flushes were answered"
+						return
+					}
+				}
+				acked := len(st.replies)
+				st.send(1, c06Msg(2, 0))
+				for {
+					r2, r3 := false, false
+					for i, r := range st.replies {
+						if r.Tag == 1 && i >= acked {
+							r2 = true
+						}
+						if r.Tag == 3 {
+							r3 = true
+						}
+					}
+					if r2 && r3 {
+						break
+					}
+					if _, ok := st.recv(); !ok {
+						st.clientEnd = "stream ended before R2 and R3 were answered"
+						return
+					}
+				}
+				st.cli.Close()
+				st.clientEnd = "ok"
+			})
+			return st
+		},
+		Check: func(state any, e *vsched.Exec) (string, []explore.Finding) {
+			st := state.(*c07MultiState)
+			var fs []explore.Finding
+			bad := func(sig, format string, a ...any) {
+				fs = append(fs, explore.Finding{Sig: "C07:" + sig, Msg: fmt.Sprintf(format, a...) + "\nlog: " + strings.Join(e.Log, " | ")})
+			}
+			if len(e.Panics) > 0 {
+				bad("panic", "%s", panicList(e))
+			}
+			if e.Horizon {
+				return "horizon", fs
+			}
+			for _, f := range st.cli.TryFrames() {
+				if fc, _, err := decodeFrame(f); err == nil {
+					st.replies = append(st.replies, fc)
+				}
+			}
+			var order []string
+			n := map[string]int{}
+			firstAck := -1
+			for i, r := range st.replies {
+				id := replyID(r.Message)
+				switch {
+				case r.Tag == 2 || r.Tag == 5:
+					n[fmt.Sprint("flush", r.Tag)]++
+					if _, ok := r.Message.(p9p.MessageRflush); ok && firstAck < 0 {
+						firstAck = i
+					}
+					order = append(order, fmt.Sprint("F", r.Tag))
+				case id == 0:
+					n["r1"]++
+					order = append(order, "R1")
+					if firstAck >= 0 {
+						bad("reply-after-flush", "the flushed request's reply was sent after a flush of it had been acknowledged (on tag %d)", r.Tag)
+					}
+				case id == 4:
+					n["r3"]++
+					order = append(order, "R3")
+					if r.Tag != 3 {
+						bad("wrong-tag", "R3's result on tag %d", r.Tag)
+					}
+				case id == 2:
+					n["r2"]++
+					order = append(order, "R2")
+					if r.Tag != 1 {
+						bad("wrong-tag", "R2's result on tag %d", r.Tag)
+					}
+				default:
+					order = append(order, "other")
+					bad("stray-reply", "unexpected reply %s", Brief(r))
+				}
+			}
+			if st.clientEnd == "ok" {
+				if n["flush2"] != 1 || n["flush5"] != 1 {
+					bad("flush-replies", "the two flushes received %d and %d replies", n["flush2"], n["flush5"])
+				}
+				if n["r3"] != 1 {
+					bad("bystander-replies", "the request that was not flushed received %d replies", n["r3"])
+				}
+				if n["r2"] != 1 {
+					bad("r2-replies", "the request reusing the freed tag received %d replies of its own (order %s)", n["r2"], strings.Join(order, ","))
+				}
+				if n["r1"] > 1 {
+					bad("multiple-replies", "R1 received %d replies", n["r1"])
+				}
+			} else if len(fs) == 0 {
+				bad("client-stuck", "client did not finish: %q; blocked: %s", st.clientEnd, blockedList(e))
+			}
+			return strings.Join(order, ","), fs
+		},
+	}
+}
+
 func c07Scenarios() []*explore.Scenario {
 	var out []*explore.Scenario
 	modes := []struct {
@@ -213,6 +350,7 @@ func c07Scenarios() []*explore.Scenario {
 	out = append(out, c07Scenario("flush-unknown/ignore", IgnoreCtx, 0, 3, true, false))
 	out = append(out, c07Scenario("flush-unknown/honour", HonourCtx, 0, 3, true, false))
 	out = append(out, c07Scenario("flush-reuse/ignore/sync", IgnoreCtx, 0, 1, false, true))
+	out = append(out, c07Multi("double-flush+bystander/ignore", IgnoreCtx), c07Multi("double-flush+bystander/honour", HonourCtx))
 	return out
 }
 
@@ -220,9 +358,17 @@ func c07(c *core.Ctx) {
 	c.Budget(90*time.Second, 12*time.Minute)
 	c.SetRule("scenarios: R1; Tflush(R1) (or of an unused tag); after the flush's reply was read, R2 reusing R1's tag (or another); handlers ignoring / racing / blocking on cancellation; every interleaving of the real ServeConn goroutines incl. every ready select case, up to the preemption bound; outcome = order of replies seen by the client + whether R1's context was done at the acknowledgement")
 	c.Assume("scheduling points at channel, select, mutex, once, sync.Map, context-cancel and conn operations; sequentially consistent interleavings only")
+	var small, big []*explore.Scenario
+	for _, sc := range c07Scenarios() {
+		if strings.HasPrefix(sc.Name, "double-flush") {
+			big = append(big, sc)
+		} else {
+			small = append(small, sc)
+		}
+	}
 	if c.Quick() {
-		runPlans(c, both(c07Scenarios(), 2, 4, 0))
+		runPlans(c, append(both(small, 2, 4, 0), both(big, -1, 3, 0)...))
 	} else {
-		runPlans(c, both(c07Scenarios(), 4, 7, 0))
+		runPlans(c, append(both(small, 4, 7, 0), both(big, 1, 5, 0)...))
 	}
 }
